@@ -111,8 +111,12 @@ def _case(draw):
         groups, meta = [[i] for i in idx], list(idx)
         return {"tpb": tpb, "tracks": tracks, "groups": groups, "meta": meta, "target": draw(st.integers(0, ntracks - 1)),
                 "via_file": draw(st.integers(0, 3)) == 0, "defaults": True}
-    return {"tpb": tpb, "tracks": tracks, "groups": groups, "meta": meta, "target": draw(st.integers(0, len(groups) - 1)),
+    case = {"tpb": tpb, "tracks": tracks, "groups": groups, "meta": meta, "target": draw(st.integers(0, len(groups) - 1)),
             "via_file": draw(st.integers(0, 3)) == 0}
+    if not case["via_file"] and draw(st.integers(0, 3)) == 0:
+        # the parsed file object was already loaded once with the default grouping (several groupings of one parsed file)
+        case["loaded_before"] = True
+    return case
 
 
 def strategy(params, shard, nshards):
@@ -201,6 +205,9 @@ def check(case):
         else:
             mf = MidiFile()
             mf.parse_mido(mido_file)
+            if case.get("loaded_before"):
+                out.label("second-load-of-parsed-file")
+                Sequence.sequences_load(midi_file=mf)
             loaded = Sequence.sequences_load(midi_file=mf, track_indices=None if case.get("defaults") else [list(g) for g in groups],
                                              meta_track_indices=None if case.get("defaults") else list(meta_idx),
                                              target_meta_track_index=target)
